@@ -3,60 +3,60 @@
 import json, sys
 CHECKS = {
  "C14": dict(
-   text="The amd64 assembly bodies of GF(2^255-19) arithmetic (add, sub, mul, sqr, modp, cmov, cswap; both the legacy MULQ/ADCQ and the MULX/ADCX/ADOX variants selected by the CPU-feature byte) are executed symbolically from the assembler's own macro-expanded listing (go tool asm -S, regenerated from /repo on every run) and decided to meet the same contract as the portable Go bodies for every operand: congruent results mod p, modp bit-identical to the Go body, cmov/cswap bit-identical; counterexamples are replayed natively with the feature byte forced.",
-   note="Deliberately narrow: integer amd64 kernels of fp25519 so far (fp448/x25519/x448/fourq/p384/sidh assembly, all AVX2/NEON code and arm64 are not covered); bit-identity of whole-primitive outputs across builds follows only for operations that canonicalise (ToBytes/Modp/IsZero).",
+   text="The amd64 assembly of GF(2^255-19) (add, sub, mul, sqr, modp, cmov, cswap) and GF(2^448-2^224-1) (add, sub, addsub, mul, cmov, cswap), and the mulA24 routines of the X25519/X448 ladders, in both the legacy MULQ/ADCQ and the MULX/ADCX/ADOX variants selected by the CPU-feature byte, are executed symbolically from the assembler's own macro-expanded listing (go tool asm -S, regenerated from /repo on every run) and decided to meet the same contract as the portable Go bodies for every operand: congruent results mod p, modp bit-identical, cmov/cswap bit-identical; counterexamples are replayed natively against the real assembly with the feature byte forced.",
+   note="Integer amd64 kernels only; fp448 squarings are attempted but unknown (tier=deep, not claimed); ladderStep/diffAdd/double, fourq, p384, csidh, sidh assembly, all AVX2/NEON code and arm64 are not covered; bit-identity of whole-primitive outputs across builds follows only for operations that canonicalise (ToBytes/Modp/IsZero).",
    ref="§4 C14"),
  "C18": dict(
-   text="EMSA-PSS of the real blind-RSA code decided against RFC 8017 §9.1.1/§9.1.2 (the algorithm crypto/rsa.VerifyPSS implements): emsaPSSVerify accepts exactly the encoded messages the RFC calls consistent, for EVERY EM byte string (emBits mod 8 in {7,0,1}, salted and salt-length-equals-hash variants), emsaPSSEncode produces maskedDB||H||0xbc byte for byte and its output verifies; real mgf1XOR counter logic.",
-   note="Hash function is an uninterpreted function of its input bytes; small moduli (emLen 67..68) so that every EM byte is symbolic; RSA exponentiation, blinding and the partially-blind key derivation not yet covered.",
+   text="EMSA-PSS of the real blind-RSA code decided against RFC 8017 9.1.1/9.1.2 (what crypto/rsa.VerifyPSS implements) for EVERY encoded message (emBits mod 8 in {7,0,1}; data block of 34, 35 and exactly 64 bytes), encode byte for byte and encode-then-verify, real mgf1XOR; range checks: the PSS verifier and Finalize refuse signatures / blind signatures that are not below the modulus for every byte string (exponentiation and encoding check replaced by their most permissive behaviour).",
+   note="Hash function is an uninterpreted function of its input bytes; toy moduli so that every byte is symbolic; RSA exponentiation, blinding algebra and the partially-blind key derivation are not covered (metadata aliasing of the latter is decided under C11).",
    ref="§4 C18"),
  "C20": dict(
    text="Access-structure level of CP-ABE decided by SMT: for every formula given by arbitrary gate tuples (class/in0/in1/out symbolic; 1 gate quick, 2 gates thorough) and every set of available input wires, Formula.satisfaction succeeds only on well-formed trees that evaluate to true, returns only available wires which by themselves satisfy the tree, and accepts every satisfiable well-formed tree.",
    note="Pairing-based encapsulation/decapsulation algebra and the policy-language parser are not covered; larger formulas outside the bound.",
    ref="§4 C20"),
  "C16": dict(
-   text="DLEQ proofs (zk/dleq, the proof system of the verifiable OPRF modes) run over an abstract group whose scalars are SMT reals: for every key, randomness, generator and batch (1 and 2 elements, all exponents symbolic) the honest proof verifies - the verifier's recomputed commitments equal the prover's as polynomial identities and the challenge is recomputed from the same transcript (hash, hash-to-scalar and element encoding as uninterpreted functions).",
-   note="Completeness only; rejection of tampered proofs holds modulo hash collisions and is not claimed; OPRF blinding, qndleq, Schnorr and OT not yet covered; characteristic-0 model of the scalar field (identities with the same non-zero denominators transfer to every field).",
+   text="DLEQ proofs (zk/dleq) over an abstract group whose scalars are SMT reals: honest proofs verify for every key / randomness / batch (1, 2), altered components are refused unless the transcript hash collides; zk/qndleq: honest proof verifies and degenerate proofs are refused for every challenge value; OPRF Finalize hash input equals the RFC 9497 framing byte for byte (recorder hash) for every mode and input/info/element incl. empty info; NIST-curve scalar decoding is canonical (known finding: values >= N accepted).",
+   note="Hash, hash-to-scalar and element encoding are uninterpreted functions; qndleq with a concrete 64-bit modulus; OPRF blinding algebra, Schnorr (zk/dl) and OT are not covered; two known findings are listed in known_findings.json (qndleq security parameter taken from the proof; non-canonical P-curve scalars).",
    ref="§4 C16"),
  "C17": dict(
-   text="Shamir/Feldman secret sharing (secretsharing + math/polynomial real generic code) over an abstract field (SMT reals, z3 nlsat): for thresholds t=1,2 (3 thorough), every secret, every coefficient vector and every choice of distinct non-zero share identifiers (all symbolic), any t+1 shares recover exactly the secret, t or fewer are refused, every dealt share verifies against the commitment, a share with altered value, a zero identifier or a commitment of the wrong length is refused.",
-   note="Abstract field of characteristic 0; threshold RSA not yet covered; element/scalar encodings not modelled (areAllDifferent is replaced by pairwise inequality).",
+   text="Shamir/Feldman secret sharing (secretsharing + math/polynomial real generic code) over an abstract field (SMT reals, z3 nlsat): t = 1, 2 (3 thorough), every secret / coefficients / distinct non-zero identifiers: t+1 shares recover the secret, t or fewer are refused, dealt shares verify, altered ones do not; threshold RSA: the integer Lagrange coefficient computeLambda is exact (lambda*den == Delta*num) for every set of k distinct players out of l (l=5,k=2,3; l=7,k=4 thorough), decided on the real math/big code with symbolic player indices.",
+   note="Abstract field of characteristic 0; element/scalar encodings not modelled; RSA exponentiation and share generation (computePolynomial with float powers for large l) not covered.",
    ref="§4 C17"),
  "C01": dict(
-   text="ML-KEM-512/768/1024 and Kyber-512/768/1024 decapsulation decided to be exactly the Fujisaki-Okamoto transform of FIPS 203 Alg. 18 / Kyber r3 Alg. 9 for EVERY ciphertext (all ciphertext bytes symbolic), incl. the implicit-rejection branch, the constant-time compare over all bytes and the conditional copy; encaps-then-decaps returns the secret for every seed under the K-PKE correctness axiom.",
-   note="Glue level: K-PKE Enc/Dec and the Keccak permutation are uninterpreted functions (the sponge code above the permutation is real); hybrids, X-Wing, Frodo and HPKE KEMs not yet covered; counterexamples are model-level (not natively replayable).",
+   text="Decapsulation decided to be exactly the Fujisaki-Okamoto transform with implicit rejection for EVERY ciphertext and key: ML-KEM-512/768/1024 (FIPS 203 Alg. 18), Kyber-512/768/1024, FrodoKEM-640-SHAKE, and the X-Wing combiner binds every received byte; encaps-then-decaps returns the secret under the K-PKE correctness axiom; Frodo 15-bit pack/unpack round trip into a used buffer.",
+   note="Glue level: K-PKE Enc/Dec, Frodo matrix products / sampler (memo functions), X25519 ladder and Keccak-p are uninterpreted; sponge, compare, selector, copy are real code; other hybrids and HPKE KEMs not covered; counterexamples are model-level.",
    ref="§4 C01"),
  "C09": dict(
-   text="Canonical decoding decided by SMT: goldilocks.FromBytes accepts only inputs that re-serialise to the parsed bytes (symbolic last byte and trailing bytes around a concrete valid y), its y-range check equals integer comparison with p for every 56-byte string, and the ML-KEM encapsulation-key check accepts exactly the keys whose 12-bit coefficients are all < q (k = 2,3,4) and re-encodes accepted keys identically.",
-   note="Subgroup / on-curve mathematics is outside the technique; BLS12-381, FourQ and NIST-curve decoders not yet covered for canonicity (their panic-freedom is under C10).",
+   text="Canonical decoding decided by SMT for every input string: Ed25519 and Ed448-Goldilocks point decoding for whatever the square-root routine returns (range check sees the masked y, decoded x = +-root, reduced x has the encoded sign, x=0/sign=1 refused), isLessThan(y,p) = integer comparison, goldilocks.FromBytes unused bits, BLS12-381 G1/G2.SetBytes hand exactly the coordinate bytes to the field decoder (flag bits only), infinity/uncompressed flag rules, FourQ Fp/Fq decoding re-serialises identically (p refused), ML-KEM encapsulation-key modulus check (k=2,3,4).",
+   note="Square roots, on-curve and subgroup tests are free values / uninterpreted (their mathematics is outside the technique); BLS field range check itself, FourQ point sign rule, NIST-curve and ristretto decoders not covered.",
    ref="§4 C09"),
  "C11": dict(
-   text="Decode-into-used-object equals decode-into-fresh-object decided for all pre-states and inputs (csidh public/private key import); more frame conditions planned.",
-   note="Sequential frame/stale-state conditions only; data races in the Go-memory-model sense are outside the technique.",
+   text="Histories: decode-into-used = decode-into-fresh (csidh keys, Goldilocks scalars, tss/rsa key shares, oprf private keys), operands unchanged (csidh DeriveSecret, Goldilocks scalar multiplications, partially-blind-RSA metadata buffer), P-curve Generator() independent of earlier results. Schedules: two goroutines, thread A suspended after each of its first 30 stores in turn, B runs to completion, A resumes, with sync.Mutex/Once modelled and a happens-before race detector: first Public()/PublicKey() of hpke X25519/X448, BLS, oprf keys, tss/rsa cached exponent vs MarshalBinary, marshalling a shared P-curve element.",
+   note="One preemption, two threads, store granularity; accesses inside intercepted library intrinsics are not tracked by the race detector; group data of the P-curve harnesses is concrete (math/big on symbolic values is out of reach); scalar multiplications are uninterpreted.",
    ref="§4 C11"),
  "C15": dict(
-   text="KeccakF1600 (24 and 12 rounds) equals a Keccak-p[1600] reference written from FIPS 202 (rho/pi from their recurrences, round constants from the rc(t) LFSR) for an arbitrary 1600-bit state; sponge step lemmas from an ARBITRARY absorbing state (arbitrary lanes, buffer fill and buffered bytes): Write equals byte-wise absorption (any chunking by induction), first Read pads with the domain byte and 0x80 and squeezes like the byte-wise sponge, for rates 136/168 (others thorough).",
-   note="Permutation is an uninterpreted function in the sponge lemmas; equalities hold by AC-normalised term identity or SMT; Ascon, K12, BLAKE2X, expanders and SIMD permutations not yet covered; generic xor.go selected by build tag appengine (the unaligned variant uses unsafe).",
+   text="KeccakF1600 (24 and 12 rounds) equals a FIPS 202 reference for an arbitrary state; sponge Write/Read step lemmas from an arbitrary absorbing state; KangarooTwelve equals the RFC 9861 tree-hash specification (transcribed over TurboSHAKE128) for padded lengths around the 8192-byte chunk boundary and around the rate, with and without customisation, and is independent of write splits and cloning; expand_message_xof equals RFC 9380 5.3.2 incl. the over-long DST rule and aborts above 65535 bytes.",
+   note="Permutation is an uninterpreted function above the permutation level (equalities hold by AC-normalised term identity or SMT); Ascon, BLAKE2X, expand_message_xmd, multi-lane K12 and SIMD permutations not covered.",
    ref="§4 C15"),
  "C13": dict(
-   text="Scalar-recoding mechanisms of fixed-base multiplication decided by SMT: ed25519 condAddOrderN, div2subY and one recoding step from an arbitrary state (m = 2m' + digit, no borrow lost), for every value; the algebraic group law is not claimed.",
-   note="Deliberately narrow: only integer recoding mechanisms (DESIGN §4 C13); group law, exceptional cases, pairings and hash-to-curve are outside the technique.",
+   text="Integer mechanisms decided by SMT: ed25519 condAddOrderN, div2subY and one recoding step from an arbitrary state for every value; NIST-curve groups: Neg(identity) is the identity and -(-G) = G (concrete data, group picked).",
+   note="Deliberately narrow: group law, exceptional cases, pairings and hash-to-curve are outside the technique.",
    ref="§4 C13"),
  "C19": dict(
-   text="Prio3 constructors decided for all parameter values: Sum (all 2^64 bounds: error or bits/offset exact and 2^bits below the field modulus), SumVec, Histogram, MultihotCountVec (no panic, degenerate parameters are errors, derived lengths).",
-   note="Bounds: vector length < 2^12..2^20 as stated per harness; encode/decode/circuit clauses not yet covered.",
+   text="Prio3 decided for all parameter values / inputs: constructors of Sum (all 2^64 bounds), SumVec, Histogram, MultihotCountVec; Histogram measurement validation (refused iff >= length, one-hot otherwise, every 64-bit measurement); InvUint64 = Inv(SetUint64(x)) for every x (fp64, fp128) and the inverse table; field equality tests; PrepNext releases the output share iff the message carries the corrected joint-randomness seed (symbolic seeds).",
+   note="Vector length bounds per harness; FLP circuits, sharding and end-to-end aggregates are not covered.",
    ref="§4 C19"),
  "C05": dict(
-   text="Ed25519 scalar arithmetic of the real code decided by SMT (linear integer carry equations): red512 on every 256-bit input and on every input below 2^320 (quick; full 512-bit in the thorough tier), isLessThanOrder equals integer comparison with L for every 32-byte string.",
-   note="Point arithmetic / group equation outside the technique; Ed448 scalars are checked under C12 (goldilocks).",
+   text="Ed25519 scalar arithmetic decided by linear integer carry equations (red512 on every 256-bit and every < 2^320 input; one-upper-word cases thorough), isLessThanOrder = integer comparison; point decoding per RFC 8032 5.1.3 for whatever the square root returns (shared with C09), Ed448 likewise; VerifyPh/VerifyAny refuse contexts longer than 255 bytes.",
+   note="Full 512-bit red512 is attempted but unknown (tier=deep, not claimed); point arithmetic / group equation outside the technique.",
    ref="§4 C05"),
  "C06": dict(
-   text="X25519/X448 input handling of the real Shared/clamp code decided for every scalar and every peer value: clamping equals RFC 7748 decodeScalar, the ladder receives u mod 2^255 (resp. u) and the clamped scalar, and the flag is false exactly when the residue mod p is one of the small-order u-coordinates (real fp Modp carry chain + table compare), operands unchanged.",
-   note="The Montgomery ladder is replaced by a recorder/uninterpreted function: that the ladder computes scalar multiplication and yields zero exactly for small-order inputs is curve theory (assumed).",
+   text="X25519/X448 input handling of the real Shared/clamp code for every scalar and peer value (clamping, reduction of u, small-order flag, operands unchanged, canonical output) and the assembly mulA24 of both ladders (both CPU-feature variants) congruent to (A+2)/4 * x for every x.",
+   note="The Montgomery ladder is a recorder/uninterpreted function; ladderStep/diffAdd/double assembly not covered.",
    ref="§4 C06"),
  "C02": dict(
-   text="Signature-decoding strictness decided by SMT on the real ML-DSA/Dilithium unpackedSignature.Unpack of all six parameter sets: symbolic challenge bytes and appended bytes around a concrete valid body; accepted iff the length is exactly SignatureSize; truncations refused. (Hint-decoding canonicity is decided under C04.)",
-   note="Covers the length/shape clause for the six ML-DSA/Dilithium packages so far; algebraic validity of honest signatures is outside the technique.",
+   text="Signature-decoding strictness on the real ML-DSA/Dilithium code of all six parameter sets: accepted iff the length is exactly SignatureSize (symbolic challenge and appended bytes), hint decoding equals FIPS 204 Alg. 21 (one accepted encoding per hint vector; shared with C04), eddilithium2/3 Verify refuse every wrong-length signature; Ed25519 fixed-base recoding lemmas.",
+   note="Algebraic validity of honest signatures is outside the technique.",
    ref="§4 C02"),
  "C04": dict(
    text="Hint decoding of all six ML-DSA/Dilithium parameter sets equals FIPS 204 Algorithm 21 (HintBitUnpack) on every (omega+k)-byte string within the stated hint-count bound: same verdict and same vector; decided by bounded symbolic execution with case split on switch-over points.",
@@ -75,12 +75,12 @@ CHECKS = {
    note="AEAD modelled as uninterpreted function with free success flag; Nn=12; plaintext lengths 0..2; go/ssa (x/tools v0.29.0) and the executor's instruction semantics are trusted; purego build tags.",
    ref="§4 C08"),
  "C10": dict(
-   text="Panic-freedom obligations (index, slice bounds, nil dereference, explicit panic) decided by SMT for untrusted-input entry points run on symbolic byte strings of every length in a stated range; counterexamples replayed natively.",
-   note="Entry points covered so far are listed in evidence; input lengths bounded per harness; field arithmetic below decoders is an uninterpreted function (its inputs are fixed-size arrays).",
+   text="Panic-freedom obligations (index, slice bounds, nil dereference, division, explicit panic) decided by SMT for untrusted-input entry points on symbolic byte strings of every length in a stated range: hpke context/KEM unmarshalling, Goldilocks points, ML-DSA hints, BLS12-381 points, csidh keys, tkn formulas, eddilithium verification, tss/rsa key shares, NIST-curve scalars, prio3 histogram measurements; counterexamples replayed natively.",
+   note="Input lengths bounded per harness; field arithmetic below decoders is uninterpreted.",
    ref="§4 C10"),
  "C12": dict(
-   text="For GF(2^255-19): add, sub, neg, addsub, mul, sqr, red64, modp, IsZero, ToBytes, cmov, cswap of the real generic code proved congruent/canonical for every byte string via linear-integer carry equations (64x64 partial products as shared bounded integers).",
-   note="Partial products abstracted (sound for unsat; abstract counterexamples are concretised when possible); generic Go code only so far (assembly: see C14); other fields are being added.",
+   text="For GF(2^255-19) and GF(2^448-2^224-1): add, sub, neg, addsub, mul, sqr, red64, modp, IsZero/IsOne, ToBytes, cmov, cswap of the real generic code, and the amd64 assembly mul/sqr (fp25519) and mul (fp448), congruent/canonical for every byte string via linear-integer carry equations; Goldilocks scalars (Red, IsZero, Add, Sub, Neg, FromBytes <= 64 bytes, word lemmas); fp64/fp128 add, sub, equality, fp64 mul.",
+   note="64x64 partial products are shared bounded integers (sound for unsat; counterexamples concretised when possible); Montgomery multiplications (BLS12-381, fp128, CSIDH, P-384), FourQ and goldilocks full scalar Mul are not decided (the latter is tier=deep).",
    ref="§4 C12"),
 }
 NOT_APPLICABLE = {}
